@@ -31,6 +31,8 @@ type Engine struct {
 	// kept as an OBJ atom instead of being inlined.
 	IsCodecMethod func(fn *ssa.Function) bool
 	NonNilGlobals map[*ssa.Global]bool
+	// NonNilPtrGlobals: package-level pointers assigned once, by their initialiser, with a fresh allocation
+	NonNilPtrGlobals map[*ssa.Global]bool
 	// UnrollMax > 0: every loop whose bound is a constant no larger than this is executed iteration by iteration
 	// (used to enumerate what start-up code does: registrations made by loops over literal tables)
 	UnrollMax int
@@ -1191,6 +1193,11 @@ func (e *Engine) evalCond(st *state, c *Val) (bool, bool) {
 	if c.Op == "binop" && (c.Name == "!=" || c.Name == "==") {
 		x, y := c.Args[0], c.Args[1]
 		if y.IsNilConst() && knownNonNil(st, x) || x.IsNilConst() && knownNonNil(st, y) {
+			return c.Name == "!=", true
+		}
+		// a package-level pointer that only its initialiser assigns, with a fresh allocation, is never nil afterwards
+		// (`if c == nil` in a method called on the registry object)
+		if y.IsNilConst() && e.nonNilGlobalLoad(x) || x.IsNilConst() && e.nonNilGlobalLoad(y) {
 			return c.Name == "!=", true
 		}
 	}
@@ -3169,4 +3176,13 @@ func isWordInt(t types.Type) bool {
 		return true
 	}
 	return false
+}
+
+func (e *Engine) nonNilGlobalLoad(v *Val) bool {
+	v = stripCT(v)
+	if v == nil || v.Op != "init" || len(v.Args) != 1 || v.Args[0].Op != "global" || e.NonNilPtrGlobals == nil {
+		return false
+	}
+	g, ok := v.Args[0].Aux.(*ssa.Global)
+	return ok && e.NonNilPtrGlobals[g]
 }
